@@ -150,3 +150,16 @@ Definition check (c : case) : bool :=
       judge (var_or_lit PrimFloat.ltb PrimFloat.leb PrimFloat.add 1%float (mate_of mks) (mut_of uks)
                         lambda_ cxpb mutpb s0 pop) o_res o_log o_snap
   end.
+
+(* the same judgement for any other pair of implementations of the two functions: used by the generated
+   file coq/Gen/C02_gen.v (tie (T)) to run the REGENERATED definitions against the implementation *)
+Definition check_with
+    (va : list matekind -> list mutkind -> float -> float -> st G F float -> list nat -> st G F float * (exn + list nat))
+    (vo : list matekind -> list mutkind -> Z -> float -> float -> st G F float -> list nat -> st G F float * (exn + list nat))
+    (c : case) : bool :=
+  match c with
+  | CAnd objs fits pop cxpb mutpb draws mks uks o_res o_log o_snap =>
+      judge (va mks uks cxpb mutpb (start (build_heap objs fits) draws) pop) o_res o_log o_snap
+  | COr objs fits pop lambda_ cxpb mutpb draws mks uks o_res o_log o_snap =>
+      judge (vo mks uks lambda_ cxpb mutpb (start (build_heap objs fits) draws) pop) o_res o_log o_snap
+  end.
